@@ -693,7 +693,11 @@ fn execute_merge_with_rows_inner<S: GraphSnapshot>(
             )?;
 
             let mut staged_filtered = filtered.as_ref().clone();
-            bind_plan_input_rows(&mut staged_filtered, &outer_rows);
+            // A leading OPTIONAL MATCH has no incoming rows to correlate with: its pattern
+            // plan starts from its own scan and must run as it is.
+            if !matches!(outer.as_ref(), Plan::ReturnOne) {
+                bind_plan_input_rows(&mut staged_filtered, &outer_rows);
+            }
             let filtered_rows =
                 execute_plan(snapshot, &staged_filtered, params).collect::<Result<Vec<_>>>()?;
 
